@@ -5,7 +5,10 @@ Driver of the node-glue correspondence (`harness/src/bin/ng.rs`, part `ng` of C1
 
   shred R n slot own relay verdict ty flagged bs            Rotor node `own` of `n`; `relay` = committee[shred]
   shred T n slot own f     verdict ty flagged bs p0 … p(n-1) Turbine node, fanout f, order p
-  a2a k valid res                                            k: 0 vote 1 cert; res: 0 ok 1 slashable 2 other
+  a2a k valid res [kind slot]*                               k: 0 vote 1 cert; res: 0 ok 1 slashable 2 other;
+                                                             then the certificates the (twin) pool newly stored during the
+                                                             call, kind: 0 notar 1 nf 2 skip 3 ff 4 final.
+                                                             State: the Votor's highest_final_cert_slot (reset by `case`).
 
 verdict: 0 ok, 1 equivocation, 2 invalid signature; ty: has_expected_type; flagged: slot flagged before;
 bs: 0 Err, 1 Ok(None), 2 Ok(Some(block)). Output: the rendered observable effects in order.
@@ -22,9 +25,20 @@ def bsOf : Nat → BsRes
   | 1 => .stored
   | _ => .block
 
-def step (st : Unit) (ws : List String) : Unit × List String :=
+def kindOf : Nat → CertKind
+  | 0 => .notar
+  | 1 => .notarFallback
+  | 2 => .skip
+  | 3 => .fastFinal
+  | _ => .final
+
+def certsOf : List Nat → List CertRef
+  | k :: s :: rest => ⟨kindOf k, s⟩ :: certsOf rest
+  | _ => []
+
+def step (st : Nat) (ws : List String) : Nat × List String :=
   match ws with
-  | "case" :: k :: _ => (st, [s!"case {k}"])
+  | "case" :: k :: _ => (0, [s!"case {k}"])
   | "shred" :: "R" :: rest =>
     match nats rest with
     | [n, slot, own, relay, v, ty, fl, bs] =>
@@ -41,11 +55,11 @@ def step (st : Unit) (ws : List String) : Unit × List String :=
     | _ => (st, ["bad-op"])
   | "a2a" :: rest =>
     match nats rest with
-    | [k, valid, res] =>
-      let es := handleA2A (if k = 0 then .vote else .cert) (valid != 0) (match res with | 0 => .ok | 1 => .slashable | _ => .otherErr)
-      let r := es.filterMap (fun e => match e with | .addVote => some "add_vote" | .addCert => some "add_cert" | _ => none)
-      (st, [if r.isEmpty then "none" else " ".intercalate r])
+    | k :: valid :: res :: created =>
+      let r := a2aNode (if k = 0 then .vote else .cert) (valid != 0) (match res with | 0 => .ok | 1 => .slashable | _ => .otherErr)
+        (certsOf created) st
+      (r.2, [renderNode r.1])
     | _ => (st, ["bad-op"])
   | _ => (st, ["bad-op"])
 
-def main : IO Unit := runDriver () step
+def main : IO Unit := runDriver (0 : Nat) step
